@@ -7,6 +7,7 @@ import Dsi.Session
 import Dsi.VByteIO
 import Dsi.Impl.MemWordSpec
 import Dsi.Impl.Adapter
+import Dsi.Impl.AdapterSeek
 import Dsi.Glue.ZigZag
 import Dsi.Glue.CheckTables
 namespace Dsi
@@ -156,20 +157,21 @@ def adRead (sched : List IoResp) (data : List Nat) (nbytes count : Nat) : String
       | x => (showRes (fun _ => "") x :: acc).reverse
   ";".intercalate (go { bytes := data, sched := sched } count [])
 
-structure AdCursor where
-  data : List Nat
-  pos : Nat := 0
-
+/-- one `AD seek` operation over a cursor (`AdCursor`, lean/Dsi/Impl/AdapterSeek.lean): `rw` is
+    `AdCursor.readWord`, `wp` is `AdCursor.wordPos`, `sp k` is `AdCursor.setWordPos`
+    (lean/Dsi/Props/AdapterGen.lean: these are the translated bodies of src/impls/word_adapter.rs
+    over the cursor's `read_exact` / `stream_position` / `seek`) -/
 def adSeekStep (nbytes : Nat) (c : AdCursor) (op : List String) : String × Option AdCursor :=
   match op with
   | ["rw"] =>
-    if c.pos + nbytes ≤ c.data.length then
-      (bytesHex ((c.data.drop c.pos).take nbytes), some { c with pos := c.pos + nbytes })
-    else ("E:eof", none)
-  | ["wp"] => (toString ((c.pos + nbytes - 1) / nbytes), some c)
+    match c.readWord nbytes with
+    | .ok (w, c') => (bytesHex w, some c')
+    | .err e => (showRes (fun _ => "") (.err e : Res Unit), some c.afterFailedRead)
+    | x => (showRes (fun _ => "") x, none)
+  | ["wp"] => (toString (c.wordPos nbytes), some c)
   | ["sp", k] =>
     match num? k with
-    | some k => ("ok", some { c with pos := k * nbytes })
+    | some k => ("ok", some (c.setWordPos nbytes k))
     | none => ("bad-op", none)
   | _ => ("bad-op", none)
 
